@@ -159,3 +159,15 @@ def run(ctx, eng):
     ctx.exhaustive = True
     ctx.assume('counting over histories follows by induction from the '
                'clauses above; the induction is not mechanised')
+    # the counters equal the number of open streams of the RFC model: on
+    # every accepted step the implementation's next state is counted iff the
+    # reference machine's is
+    from .c06 import compare_cells, feedable_from_source
+    counted = {'OPEN', 'HALF_CLOSED_LOCAL', 'HALF_CLOSED_REMOTE'}
+    compare_cells(eng, ctx, feedable_from_source(eng, ctx),
+                  rule='FSM.counted',
+                  differs=lambda exp, got: exp[0] == 'ok' and got[0] == 'ok'
+                  and (exp[2].st in counted) != (got[2].st in counted))
+    cm.include(ctx, eng, 'C11', {'FLOW.queue', 'FLOW.ack-source'},
+               'the enforced local limit is the acknowledged one: one '
+               'pending value per setting becomes current per ACK')
